@@ -47,6 +47,7 @@ def run(ctx):
     ctx.rule(manifest_lines)
     ctx.rule(torch_twins)
     ctx.rule(torch_wrappers)
+    ctx.rule(items_independent)
     ctx.rule(torch_port_geometry)
     ctx.rule(torch_port_spectrum)
     ctx.rule(torch_port_reductions)
@@ -885,6 +886,13 @@ def torch_wrappers(ctx, R="R-C09-torch-twins"):
     computed: the wrapper rule of the torch module (C14) is a premise of this property and is re-established here."""
     from . import c14
     c14.wrappers(ctx, R)
+
+
+def items_independent(ctx, R="R-C09-pipeline"):
+    """every utterance is computed from its own signal: serving an item keeps nothing on the dataset object (a remembered
+    "last file read" hands the previous utterance's samples to the next one that shares its archive) - the rule of C10, shared"""
+    from . import c10
+    c10.items_independent(ctx, R)
 
 
 def torch_twins(ctx):
